@@ -121,6 +121,7 @@ def strategy(tier):
         "eqnodes": st.sampled_from([False, False, True]),
         # node class whose container links have `_<name>_default` methods (unused: all values are explicit)
         "dyn_defaults": st.sampled_from([False, False, True]),
+        "decoy": st.sampled_from([False, False, True]),
     })
 
 
@@ -188,6 +189,14 @@ def _run_body(case, ctx, p, sig, loud_short, otc_name, obs_name, created, fresh,
     else:
         root.on_trait_change(h_otc, otc_name)
     root.observe(h_obs, obs_name)
+    if case.get("decoy"):
+        # ANOTHER extended name registered on the same object and removed again straight away: the first registration is
+        # none of its business
+        def h_decoy(obj, name, old, new):
+            A.append(("decoy", name))
+        root.on_trait_change(h_decoy, "child2:child:value")
+        root.on_trait_change(h_decoy, "child2:child:value", remove=True)
+        ctx.label("another-extended-name-came-and-went")
     interesting = False
 
     def probe(tag):
